@@ -251,7 +251,8 @@ def step_list(ctx, g, h, sh, rng):
     idx = rng.choice([0, -1, 1, n - 1, n, -n, -n - 1, n + 2, 2]) if rng.random() < 0.5 else (rng.randrange(n) if n else 0)
     ob = lambda: rng.choice([None, 0, 1, -1, n, n + 1, 2, -2])  # noqa: E731
     m = rng.choice(["append", "insert", "extend", "iadd", "remove", "pop", "delitem", "delslice", "setitem", "setslice", "clear",
-                    "reverse", "index", "count", "getitem", "getslice", "len", "contains", "iter", "reversed", "extslice_bad"])
+                    "reverse", "index", "index_bounds", "index_bounds", "count", "getitem", "getslice", "len", "contains", "iter", "reversed",
+                    "extslice_bad"])
     ctx.count("list." + m)
     v = rng.choice(l) if (l and rng.random() < 0.3) else rng.choice(mods)
     vs = list(dict.fromkeys(rng.choice(mods) for _ in range(rng.choice([0, 1, 2, 3]))))
@@ -370,7 +371,17 @@ def step_list(ctx, g, h, sh, rng):
             "contains": (lambda: O[v] in ml, lambda: v in l), "iter": (lambda: [w.n(x) for x in ml], lambda: list(l)),
             "reversed": (lambda: [w.n(x) for x in reversed(ml)], lambda: list(reversed(l))),
         }
-        if m == "getslice":
+        if m == "index_bounds":
+            # list.index(x, start[, stop]) with integer bounds of every sign, 0 and beyond the ends included
+            a = rng.choice([0, 0, 1, 2, -1, -2, -5, 5, len(l), -len(l)])
+            b = rng.choice([0, 0, 1, 2, 3, -1, -2, -5, 5, len(l), -len(l)])
+            if rng.random() < 0.3:
+                ri = call(g, lambda: ml.index(O[v], a)); rs = call(g, lambda: l.index(v, a))
+                desc = "n%d.modules index(x,start) n%d/%d" % (ir, v, a)
+            else:
+                ri = call(g, lambda: ml.index(O[v], a, b)); rs = call(g, lambda: l.index(v, a, b))
+                desc = "n%d.modules index(x,start,stop) n%d/%d/%d" % (ir, v, a, b)
+        elif m == "getslice":
             a, b, st = ob(), ob(), rng.choice([None, 1, 2, -1])
             ri = call(g, lambda: ml[a:b:st]); rs = call(g, lambda: l[a:b:st])
             desc = "n%d.modules[%s:%s:%s]" % (ir, a, b, st)
